@@ -408,6 +408,14 @@ type c11Runner struct {
 	w      *vfWorld
 	tab    *c11Table
 	faults *c11Faults
+	accMu  sync.Mutex
+	acc    map[string]bool // Redis keys that may legitimately outlive the run (their browser never completed a successful sign-out)
+}
+
+func (r *c11Runner) accountFor(key string) {
+	r.accMu.Lock()
+	r.acc[key] = true
+	r.accMu.Unlock()
 }
 
 var c11Seq int64
@@ -415,11 +423,41 @@ var c11Seq int64
 func (r *c11Runner) one(cfg *c11Cfg, h c11Hist) {
 	run, p := r.run, cfg.p
 	no := atomic.AddInt64(&c11Seq, 1)
-	sub := fmt.Sprintf("c11-%d", no)
+	users := h.Users
+	if len(users) == 0 {
+		users = []int{0}
+	}
+	subOf := func(u int) string { return fmt.Sprintf("c11-%d-u%d", no, u) }
+	sub := subOf(users[len(users)-1]) // the user of the last login: requests, refreshes and sign-out are theirs
+	// pad of the n-th ID token issued to each subject, in order of issuance
+	padsOf := map[string][]int{}
+	for li, u := range users {
+		if li < len(users)-1 {
+			padsOf[subOf(u)] = append(padsOf[subOf(u)], h.EarlierPads[li])
+		} else {
+			padsOf[subOf(u)] = append(padsOf[subOf(u)], h.Pads...)
+		}
+	}
 	r.tab.mu.Lock()
-	r.tab.pads[sub] = h.Pads
+	for k, v := range padsOf {
+		r.tab.pads[k] = v
+	}
 	r.tab.mu.Unlock()
 	b := vfNewBrowser(h.HostLogin)
+	// whatever happens, the tickets of a browser that did not complete a successful sign-out may legitimately stay in the store
+	signedOut := false
+	defer func() {
+		if cfg.Store != "redis" || signedOut {
+			return
+		}
+		for _, c := range b.Jar.Archive {
+			if c11IsSession(c) {
+				if k := c11TicketKey(c.Value); k != "" {
+					r.accountFor(k)
+				}
+			}
+		}
+	}()
 	var trace []string
 	var gens [][]*vfCookie // session cookies stored by one response = one generation
 	detail := func(extra map[string]interface{}) map[string]interface{} {
@@ -471,26 +509,39 @@ func (r *c11Runner) one(cfg *c11Cfg, h c11Hist) {
 		return resp
 	}
 	// --- login
-	st := send(vfGET(cfg.Prefix + "/start?rd=" + vfQueryEscape(cfg.Base)))
-	if st.Code != 302 {
-		run.Inconclusive(fmt.Sprintf("login start answered %d", st.Code))
-		return
+	for li, u := range users {
+		lsub := subOf(u)
+		st := send(vfGET(cfg.Prefix + "/start?rd=" + vfQueryEscape(cfg.Base)))
+		if st.Code != 302 {
+			run.Inconclusive(fmt.Sprintf("login start answered %d", st.Code))
+			return
+		}
+		code, ar, err := r.w.IdP.Authorize(st.Location(), vfIdentity{Sub: lsub, Email: "x@example.com", Groups: []string{"g"}, PreferredUsername: "pu-" + lsub})
+		if err != nil {
+			run.Inconclusive("login start failed: " + vfTrunc(err.Error(), 60))
+			return
+		}
+		ng := len(gens)
+		cb := send(vfGET(cfg.Prefix + "/callback?code=" + vfQueryEscape(code) + "&state=" + vfQueryEscape(ar.Params.Get("state"))))
+		if cb.Code != 302 {
+			run.Inconclusive(fmt.Sprintf("login callback answered %d", cb.Code))
+			return
+		}
+		if len(gens) == ng {
+			run.Inconclusive("login stored no session cookie in the browser")
+			return
+		}
+		trace = append(trace, fmt.Sprintf("login %d as %s at %s (proxy sees Host %s): %d session cookie(s)", li+1, lsub, h.HostLogin, wire(h.HostLogin), len(gens[len(gens)-1])))
+		if li < len(users)-1 {
+			// the earlier user works a little before somebody else logs in over the session, without a sign-out
+			resp := send(vfGET(cfg.Base+"probe?login="+fmt.Sprint(li), "X-Vf-Id", fmt.Sprintf("%s-l%d", lsub, li)))
+			if resp.Code != 200 {
+				run.Inconclusive(fmt.Sprintf("authenticated request answered %d", resp.Code))
+				return
+			}
+			run.Count("logins_over_an_existing_session", 1)
+		}
 	}
-	code, ar, err := r.w.IdP.Authorize(st.Location(), vfIdentity{Sub: sub, Email: "x@example.com", Groups: []string{"g"}, PreferredUsername: "pu-" + sub})
-	if err != nil {
-		run.Inconclusive("login start failed: " + vfTrunc(err.Error(), 60))
-		return
-	}
-	cb := send(vfGET(cfg.Prefix + "/callback?code=" + vfQueryEscape(code) + "&state=" + vfQueryEscape(ar.Params.Get("state"))))
-	if cb.Code != 302 {
-		run.Inconclusive(fmt.Sprintf("login callback answered %d", cb.Code))
-		return
-	}
-	if len(gens) == 0 {
-		run.Inconclusive("login stored no session cookie in the browser")
-		return
-	}
-	trace = append(trace, fmt.Sprintf("login at %s (proxy sees Host %s): %d session cookie(s)", h.HostLogin, wire(h.HostLogin), len(gens[len(gens)-1])))
 	refreshAt := map[int]bool{}
 	for _, x := range h.RefreshAt {
 		refreshAt[x] = true
@@ -620,6 +671,9 @@ func (r *c11Runner) one(cfg *c11Cfg, h c11Hist) {
 	if h.Fault != "" {
 		cell += "|fault=" + h.Fault
 	}
+	if len(h.Users) > 1 {
+		cell += "|logins=" + h.loginClass()
+	}
 	run.Eval(cell)
 	run.Count("histories", 1)
 	if h.ProxyHost != "" {
@@ -748,6 +802,12 @@ func (r *c11Runner) one(cfg *c11Cfg, h c11Hist) {
 	if !success {
 		return
 	}
+	signedOut = true
+	if keyLeft != "" {
+		for k := range keys {
+			r.accountFor(k) // already reported above
+		}
+	}
 	final := b.Jar.For(h.HostOut, cfg.Base+"replay", false)
 	if ok, what := authed(final, true); ok && !explained {
 		run.Violation("c11:browser-still-authenticated-after-sign-out", fmt.Sprintf("[%s] after the 302 sign-out the browser's own next request is authenticated (%s) with jar %v", cfg.Label, what, c11Describe(final)),
@@ -808,7 +868,7 @@ func c11Lines(lines []string) []string {
 func TestVerif_C11(t *testing.T) {
 	run := vfNewRun(t, "C11", "exploration")
 	run.SetRule("histories login -> k in 0..3 authenticated requests (with refreshes that grow / shrink the ID token, also on the sign-out request itself) -> sign-out (GET / POST, rd none / relative / foreign) -> " +
-		"replay of every archived cookie alone, of each generation together and of the final jar on <prefix>/userinfo and a protected path; " +
+		"replay of every archived cookie alone, of each generation together and of the final jar on <prefix>/userinfo and a protected path; also 2-3 consecutive logins in one browser (different users / same user) before the sign-out, after which the cookies of EVERY earlier login must be dead and no key of the run may remain in Redis; " +
 		"stores cookie and Redis; cookie-domain none / parent / two domains (login and sign-out hosts exact, sub-domain, with port, different hosts under the parent, hosts for which different configured domains are selected, and a Host-rewriting front proxy: the browser addresses app.example.test while the proxy sees internal-svc:4180 / an IP literal / localhost, matching none of the configured domains); cookie-path / and /app/; " +
 		"cookie names default, 255, 256 characters and regexp metacharacters; sessions of 1..4+ cookies; Redis DEL failing through the RESP front (error before effect, dropped connection, nil reply, effect then error / drop). " +
 		"cell = (store, session cookies presented at sign-out, refresh in history, domain/path configuration, method, name class[, fault]); non-trivial = every history (each ends in a judged sign-out)")
@@ -821,7 +881,11 @@ func TestVerif_C11(t *testing.T) {
 	defer w.Close()
 	tab := c11NewTable(w, run.Env.Seed*17+3)
 	faults := &c11Faults{m: map[string]string{}}
-	r := &c11Runner{run: run, w: w, tab: tab, faults: faults}
+	r := &c11Runner{run: run, w: w, tab: tab, faults: faults, acc: map[string]bool{}}
+	keysBefore := map[string]bool{}
+	for _, k := range w.Redis().Keys() {
+		keysBefore[k] = true
+	}
 
 	cfgs := c11Configs(run, w)
 	// Redis instances behind the fault-injecting front (error clause)
@@ -900,6 +964,24 @@ func TestVerif_C11(t *testing.T) {
 		r.one(j.cfg, j.h)
 	})
 
+	// key space of the store: before the first login vs after the last sign-out. Whatever is left must belong to a browser that
+	// did not complete a successful sign-out (fault histories, aborted histories); anything else is a session no sign-out removed,
+	// whether or not one of our browsers still holds a cookie for it.
+	var orphans []string
+	for _, k := range w.Redis().Keys() {
+		if !keysBefore[k] && !r.acc[k] && !strings.HasSuffix(k, ".lock") {
+			orphans = append(orphans, k)
+		}
+	}
+	run.Count("redis_keys_left_unaccounted", int64(len(orphans)))
+	run.Count("redis_keys_left_accounted(no successful sign-out)", int64(len(r.acc)))
+	if len(orphans) > 0 {
+		if len(orphans) > 10 {
+			orphans = orphans[:10]
+		}
+		run.Violation("c11:stored-sessions-left-after-all-browsers-signed-out", fmt.Sprintf("%d session key(s) are still in Redis although every browser that could hold a ticket for them signed out successfully, e.g. %s", run.Counter("redis_keys_left_unaccounted"), vfTrunc(orphans[0], 60)),
+			map[string]interface{}{"keys": orphans, "note": "key space compared before the first login and after the last sign-out; keys of browsers whose sign-out failed or whose history aborted are excluded"})
+	}
 	injected := 0
 	for _, c := range hub.Log() {
 		if c.Op == "DEL" && c.Fault != "" {
@@ -911,11 +993,11 @@ func TestVerif_C11(t *testing.T) {
 		fmt.Printf("INCONCLUSIVE property=C11 reason=no DEL fault was injected / no stored session survived a failed delete: the error clause was not exercised\n")
 		t.Fail()
 	}
-	if run.Counter("replay_requests") == 0 || run.Counter("refreshes") == 0 || run.Counter("histories_host_rewritten") == 0 {
-		fmt.Printf("INCONCLUSIVE property=C11 reason=no replay / no refresh / no host-rewritten history observed\n")
+	if run.Counter("replay_requests") == 0 || run.Counter("refreshes") == 0 || run.Counter("histories_host_rewritten") == 0 || run.Counter("logins_over_an_existing_session") == 0 {
+		fmt.Printf("INCONCLUSIVE property=C11 reason=no replay / no refresh / no host-rewritten history / no second login observed\n")
 		t.Fail()
 	}
-	run.Finish(int64(run.Env.Pick(850, 8000)), run.Env.Pick(450, 800))
+	run.Finish(int64(run.Env.Pick(1200, 9000)), run.Env.Pick(750, 1000))
 }
 
 var _ = sort.Strings
